@@ -157,3 +157,22 @@ Proof.
            jac_bystate A a0 a1 add mul sub opp Rth nS nP f J G DJ GJ arrange z (C13_arrange_good nS nP)).
 Qed.
 Print Assumptions C13_jac_entry_bystate.
+
+(* ---- over the reals: the formal partial derivatives above are derivatives (Coquelicot is_derive) of the sensitivity
+        right-hand side, given that DJ / GJ hold the state-derivatives of J / G in pygom's layouts (C03's statement) *)
+From Coq Require Import Reals.
+From Coquelicot Require Import Coquelicot.
+From PV Require Import ExprProofs SensReal.
+Theorem C13_real_dx : forall nS (Jx Gx DJx GJx : (nat -> R) -> arr R),
+  (forall x i l m, is_derive (fun v => get (Jx (upd x m v)) i l) (x m) (get (DJx x) (i * nS + l) m)) ->
+  (forall x i j m, is_derive (fun v => get (Gx (upd x m v)) i j) (x m) (get (GJx x) (j * nS + i) m)) ->
+  forall (S : nat -> nat -> R) x i j m,
+    is_derive (fun v => rhs_S R 0%R Rplus Rmult nS (Jx (upd x m v)) (Gx (upd x m v)) S i j) (x m)
+              (dS_dx R 0%R Rplus Rmult nS (DJx x) (GJx x) S i j m).
+Proof. exact rhs_S_dx. Qed.
+Theorem C13_real_dS : forall nS (Jx Gx : (nat -> R) -> arr R) (S : nat -> nat -> R) x i j l' j', (l' < nS)%nat ->
+  is_derive (fun v => rhs_S R 0%R Rplus Rmult nS (Jx x) (Gx x) (updS S l' j' v) i j) (S l' j')
+            (if Nat.eqb j j' then get (Jx x) i l' else 0%R).
+Proof. intros nS Jx Gx. exact (rhs_S_dS nS Jx Gx). Qed.
+Print Assumptions C13_real_dx.
+Print Assumptions C13_real_dS.
